@@ -328,6 +328,20 @@ pub fn s_cltv() -> Vec<WCfg> {
             c.templates[a2].spec.cltv_expiry = e2;
             out.push(c);
         }
+        // the plugin has been told a height by a block notification; a later periodic poll reports a stale,
+        // lower height (search starts after that poll was answered)
+        {
+            let mut c = mk("stale-poll");
+            let inv = c.add_invoice(&InvoiceSpec::fixed(1, 1_000_000));
+            let a1 = c.add_htlc("a1", inv, 600_000, 1_005_000);
+            let a2 = c.add_htlc("a2", inv, 405_000, 1_005_000);
+            c.templates[a1].spec.cltv_expiry = h0.saturating_add(p + 12);
+            c.templates[a2].spec.cltv_expiry = h0.saturating_add(p + 12);
+            c.max_height_events = 4;
+            c.max_advances = 4;
+            c.prefix = vec![format!("Block({})", h0 + 10), format!("Height({})", h0 + 1), "Advance(60000ms)".to_string(), "@answers".to_string()];
+            out.push(c);
+        }
         // the set is funded by a far-expiry HTLC; a lower-expiry HTLC joins before the attempt is initiated
         {
             let mut c = mk("late-lower");
@@ -862,8 +876,11 @@ pub fn s_isolation(thorough: bool) -> Vec<WCfg> {
                     c.templates[t].spec.cltv_expiry = c.start_height + 1000;
                 }
             }
-            c.add_htlc("b1", ib, 1_200_000, 2_010_000);
-            c.add_htlc("b2", ib, 810_000, 2_010_000);
+            let b1 = c.add_htlc("b1", ib, 1_200_000, 2_010_000);
+            let b2 = c.add_htlc("b2", ib, 810_000, 2_010_000);
+            // B's incoming HTLCs expire later than A's (pooled expiries would show in B's pay request)
+            c.templates[b1].spec.cltv_expiry += 700;
+            c.templates[b2].spec.cltv_expiry += 900;
             c.max_parts = 2;
             c.max_crashes = 0;
             c.write_faults = true;
